@@ -13,6 +13,10 @@
                                                    a writer that refuses a `write_all` call: `Error::Io`, never a panic; what it
                                                    holds is a prefix of the string serialisation; which error is reported when
                                                    the serialisation itself fails too (the first in event order)
+    C16_write_fails_with_io_bytes, C16_write_error_priority_bytes,
+    C16_write_default_any_writer_bytes, C16_utf8   the same in front of a BYTE-level writer (`BytePolicy`, Model/WriterBytes.lean): a
+                                                   refused call lets through `k` bytes, possibly ending inside a multi-byte
+                                                   character; the writer holds a prefix of `utf8` of the string serialisation
     C16_normalizer_*                               the instances for a caller-supplied normalizer: `Xot::tokens(.., normalizer)`
                                                    <-> `serialize_xml_string_with_normalizer`; the event stream of the
                                                    normalised tree
@@ -22,6 +26,7 @@ import XotModel.Lemmas.Events
 import XotModel.Lemmas.XmlDeclRest
 import XotModel.Lemmas.NormalizerXml
 import XotModel.Lemmas.WriterXml
+import XotModel.Lemmas.WriterBytes
 
 namespace XotModel.Props
 open XotModel XotModel.Gen
@@ -528,5 +533,187 @@ example :
       = ("<>\n  </>\n</>", .err .io) ∧
     (fun r : Str × Outcome XotError Unit => (String.ofList r.1, r.2)) (serializeXmlWriteW (.budget (some 10)) xmlEscapers {} p t [])
       = ("<>\n  </>\n</>\n", .ok ()) := by decide
+
+/-! ### C16_write_fails … _bytes: the failing writer at BYTE level
+
+The theorems above count what a refused call lets through in CHARACTERS.  A real `io::Write` receives the UTF-8
+bytes of each piece (`w.write_all(s.as_bytes())`) and may stop anywhere, also inside a multi-byte character.
+`Model/WriterBytes.lean`: `utf8` (the encoder, equal to Lean's `String.toUTF8` for every text:
+`Lemmas/WriterBytes.lean: utf8_toUTF8`), `BytePolicy` (`some k` = refused after `k` BYTES of this call),
+`serializeXmlWriteB B` = the trace `serializeXmlCalls` replayed against `B`.  That the trace is the same for every
+writer is `serializeXmlWriteW_eq_replayCalls` (for every character-level writer the threaded function is this trace
+replayed), and (6) below ties the byte-level result back to the threaded function run in front of `B.chars`. -/
+
+/-- **A failing BYTE-level writer gives `Error::Io`, never a panic**, and holds a prefix of the UTF-8 bytes of the
+    string serialisation — possibly ending inside a character.  For every byte-level writer `B`, every tree, start
+    node and parameter set:
+    (1) either one call is refused: the calls are `pre ++ c :: post`, `B` accepts `pre` and answers `some k` to `c`;
+        the call returns `Err(Io)` and the writer holds the bytes of `pre` followed by the first `k` bytes of `c`;
+        or no call is refused and the result is that of the never-failing writer, as bytes: `utf8` of its text,
+        its outcome;
+    (2) never a panic caused by the writer;
+    (3) what the writer holds is a PREFIX of `utf8` of what the never-failing writer receives;
+    (4) when `serialize_xml_string` returns `Ok(s)`: no refusal gives `Ok` with exactly `utf8 s`, a refusal gives
+        `Io`, and in both cases the writer holds a prefix of `utf8 s`;
+    (5) `ByteBudgetWriter { remaining: n }`: enough budget gives the old result; less gives `Io` and the writer
+        holds exactly the first `n` bytes — wherever in a character that falls;
+    (6) the character level: the outcome is that of the threaded `serializeXmlWriteW` in front of `B.chars`, and
+        the bytes held are the `utf8` of the characters that one holds plus at most 3 bytes (none unless `Io`);
+    (7) the never-failing writer holds `utf8` of the never-failing model's text. -/
+theorem C16_write_fails_with_io_bytes (B : BytePolicy) (esc : Escapers) (env : Env) (p : XmlParams) (t : Tree)
+    (start : Path) :
+    ((∃ pre c post k, (serializeXmlCalls esc env p t start).1 = pre ++ c :: post ∧
+          writeCallsB B [] pre = .ok (pre.map utf8) ∧ B (pre.map utf8) (utf8 c) = some k ∧
+          serializeXmlWriteB B esc env p t start = (utf8 pre.flatten ++ (utf8 c).take k, .err .io)) ∨
+      (writeCallsB B [] (serializeXmlCalls esc env p t start).1 = .ok ((serializeXmlCalls esc env p t start).1.map utf8) ∧
+          serializeXmlWriteB B esc env p t start
+            = (utf8 (serializeXmlWriteWith esc env p t start).1, (serializeXmlWriteWith esc env p t start).2))) ∧
+    ((serializeXmlWriteB B esc env p t start).2 = .panic → (serializeXmlWriteWith esc env p t start).2 = .panic) ∧
+    (∃ rest, utf8 (serializeXmlWriteWith esc env p t start).1 = (serializeXmlWriteB B esc env p t start).1 ++ rest) ∧
+    (∀ s, serializeXmlStringWith esc env p t start = .ok s →
+        (writeCallsB B [] (serializeXmlCalls esc env p t start).1 = .ok ((serializeXmlCalls esc env p t start).1.map utf8) →
+          serializeXmlWriteB B esc env p t start = (utf8 s, .ok ())) ∧
+        (∀ b, writeCallsB B [] (serializeXmlCalls esc env p t start).1 = .error b →
+          serializeXmlWriteB B esc env p t start = (b, .err .io)) ∧
+        ∃ rest, utf8 s = (serializeXmlWriteB B esc env p t start).1 ++ rest) ∧
+    (∀ n, serializeXmlWriteB (BytePolicy.byteBudget n) esc env p t start =
+        if (utf8 (serializeXmlWriteWith esc env p t start).1).length ≤ n
+        then (utf8 (serializeXmlWriteWith esc env p t start).1, (serializeXmlWriteWith esc env p t start).2)
+        else ((utf8 (serializeXmlWriteWith esc env p t start).1).take n, .err .io)) ∧
+    ((serializeXmlWriteB B esc env p t start).2 = (serializeXmlWriteW B.chars esc env p t start).2 ∧
+      ∃ tail, (serializeXmlWriteB B esc env p t start).1
+          = utf8 (serializeXmlWriteW B.chars esc env p t start).1 ++ tail ∧ tail.length ≤ 3 ∧
+        ((serializeXmlWriteB B esc env p t start).2 ≠ .err .io → tail = [])) ∧
+    serializeXmlWriteB BytePolicy.unlimited esc env p t start
+      = (utf8 (serializeXmlWriteWith esc env p t start).1, (serializeXmlWriteWith esc env p t start).2) := by
+  have hcalls := serializeXmlCalls_eq esc env p t start
+  have h1 : (serializeXmlCalls esc env p t start).1.flatten = (serializeXmlWriteWith esc env p t start).1 :=
+    congrArg Prod.fst hcalls
+  have h2 : (serializeXmlCalls esc env p t start).2 = (serializeXmlWriteWith esc env p t start).2 :=
+    congrArg Prod.snd hcalls
+  have hpre : ∃ rest, utf8 (serializeXmlWriteWith esc env p t start).1
+      = (serializeXmlWriteB B esc env p t start).1 ++ rest := by
+    rw [← h1]; exact replayCallsB_prefix_utf8 B _
+  refine ⟨?_, ?_, hpre, ?_, ?_, ?_, ?_⟩
+  · rcases replayCallsB_cases B (serializeXmlCalls esc env p t start) with ⟨pre, c, post, k, a1, a2, a3, _, a5⟩ | ⟨a1, a2⟩
+    · exact Or.inl ⟨pre, c, post, k, a1, a2, a3, a5⟩
+    · rw [h1, h2] at a2; exact Or.inr ⟨a1, a2⟩
+  · intro h
+    rw [← h2]
+    exact replayCallsB_panic B [] _ h
+  · intro s hs
+    have hw := (C16_write esc env p t start).2.1 s hs
+    refine ⟨?_, ?_, ?_⟩
+    · intro hok
+      unfold serializeXmlWriteB replayCallsB
+      rw [hok]
+      simp only []
+      rw [← utf8_flatten, h1, h2, hw]
+    · intro b hb
+      unfold serializeXmlWriteB replayCallsB
+      rw [hb]
+    · obtain ⟨rest, h⟩ := hpre
+      rw [hw] at h
+      exact ⟨rest, h⟩
+  · intro n
+    unfold serializeXmlWriteB
+    rw [replayCallsB_byteBudget, h1, h2]
+  · unfold serializeXmlWriteB
+    rw [serializeXmlWriteW_eq_replayCalls]
+    exact replayCallsB_chars B _
+  · unfold serializeXmlWriteB
+    rw [replayCallsB_unlimited, List.nil_append, ← utf8_flatten, h1, h2]
+
+/-- **Which error wins, byte level** (the priority of `C16_write_error_priority`): when the string entry point fails
+    with `e`, a byte-level writer that accepts every call made before `e` arises sees `e` reported (and holds all
+    those calls' bytes); one that refuses any of them — after however many bytes — makes the call return `Io`; with
+    a byte budget the boundary is the byte length of those calls; and an error that arises before the first write
+    is reported whatever the writer does. -/
+theorem C16_write_error_priority_bytes (B : BytePolicy) (esc : Escapers) (env : Env) (p : XmlParams) (t : Tree)
+    (start : Path) (e : XotError) (he : serializeXmlStringWith esc env p t start = .err e) :
+    (writeCallsB B [] (serializeXmlCalls esc env p t start).1 = .ok ((serializeXmlCalls esc env p t start).1.map utf8) →
+        serializeXmlWriteB B esc env p t start = (utf8 (serializeXmlCalls esc env p t start).1.flatten, .err e)) ∧
+    (∀ b, writeCallsB B [] (serializeXmlCalls esc env p t start).1 = .error b →
+        serializeXmlWriteB B esc env p t start = (b, .err .io)) ∧
+    (∀ n, (utf8 (serializeXmlCalls esc env p t start).1.flatten).length ≤ n →
+        (serializeXmlWriteB (BytePolicy.byteBudget n) esc env p t start).2 = .err e) ∧
+    (∀ n, n < (utf8 (serializeXmlCalls esc env p t start).1.flatten).length →
+        serializeXmlWriteB (BytePolicy.byteBudget n) esc env p t start
+          = ((utf8 (serializeXmlCalls esc env p t start).1.flatten).take n, .err .io)) ∧
+    ((serializeXmlCalls esc env p t start).1 = [] → serializeXmlWriteB B esc env p t start = ([], .err e)) := by
+  have he' : (serializeXmlWriteWith esc env p t start).2 = .err e := ((C16_write esc env p t start).2.2 e).2 he
+  have h2 : (serializeXmlCalls esc env p t start).2 = .err e := by
+    rw [← he']; exact congrArg Prod.snd (serializeXmlCalls_eq esc env p t start)
+  refine ⟨?_, ?_, ?_, ?_, ?_⟩
+  · intro hok
+    unfold serializeXmlWriteB replayCallsB
+    rw [hok]
+    simp only []
+    rw [← utf8_flatten, h2]
+  · intro b hb
+    unfold serializeXmlWriteB replayCallsB
+    rw [hb]
+  · intro n hn
+    unfold serializeXmlWriteB
+    rw [replayCallsB_byteBudget, if_pos hn, h2]
+  · intro n hn
+    unfold serializeXmlWriteB
+    rw [replayCallsB_byteBudget, if_neg (by omega)]
+  · intro hnil
+    unfold serializeXmlWriteB replayCallsB
+    rw [hnil, h2]
+    rfl
+
+/-- `Xot::write(node, w)` in front of a byte-level writer is the default-parameter instance, and with the
+    character-level bridge: same outcome as `serializeWriteW B.chars`. -/
+theorem C16_write_default_any_writer_bytes (B : BytePolicy) (esc : Escapers) (env : Env) (t : Tree) (start : Path) :
+    serializeWriteB B esc env t start = serializeXmlWriteB B esc env {} t start ∧
+    (serializeWriteB B esc env t start).2 = (serializeWriteW B.chars esc env {} t start).2 :=
+  ⟨rfl, by
+    rw [← C16_write_default_any_writer]
+    exact (C16_write_fails_with_io_bytes B esc env {} t start).2.2.2.2.2.1.1⟩
+
+/-- `utf8` is `str::as_bytes`: a morphism, Lean's own `String.toUTF8` for every text, `strLen` long. -/
+theorem C16_utf8 :
+    (∀ a b : Str, utf8 (a ++ b) = utf8 a ++ utf8 b) ∧
+    (∀ s : Str, (String.ofList s).toUTF8 = (utf8 s).toByteArray) ∧
+    (∀ s : Str, (utf8 s).length = strLen s) ∧
+    (∀ c : Char, 1 ≤ (utf8Char c).length ∧ (utf8Char c).length ≤ 4) :=
+  ⟨utf8_append, utf8_toUTF8, utf8_length, fun c => ⟨utf8Char_length_pos c, utf8Char_length_le c⟩⟩
+
+/-- The encoder against `String.toUTF8` on closed texts with 1-, 2-, 3- and 4-byte characters. -/
+example : "aé€😀".toUTF8.data.toList = utf8 ['a', 'é', '€', '😀'] ∧
+    utf8 ['a', 'é', '€', '😀'] = [0x61, 0xC3, 0xA9, 0xE2, 0x82, 0xAC, 0xF0, 0x9F, 0x98, 0x80] ∧
+    "<?xml version=\"1.0\"?>\n<ü>߿ࠀ￿𐀀😀</ü>".toUTF8.data.toList
+      = utf8 "<?xml version=\"1.0\"?>\n<ü>߿ࠀ￿𐀀😀</ü>".toList := by decide
+
+/-- Non-vacuity: `<a>é€</a>` (the text is 2 characters, 5 bytes; env: name 2 = `a`).  The calls are `<a`, `>`, `é€`,
+    `</a>`, 12 bytes.  Byte budgets 4, 5, 7 stop before, inside `é` and inside `€`: `Io`, the writer holds
+    `<a>` + 1, 2, 4 bytes of the text; the character-level writer seen through the same budget holds `<a>`, `<a>`,
+    `<a>é`; budget 12 gives `Ok` and all 12 bytes. -/
+example :
+    let env : Env := ⟨[[], xmlNs], [[], ['x','m','l']], [(['s','p','a','c','e'], 1), (['i','d'], 1), (['a'], 0)]⟩
+    let t : Tree := .node .document [.node (.element 2) [.node (.text ['é', '€']) []]]
+    (serializeXmlCalls xmlEscapers env {} t []).1.map String.ofList = ["<a", ">", "é€", "</a>"] ∧
+    serializeXmlWriteB (.byteBudget 4) xmlEscapers env {} t [] = ([0x3C, 0x61, 0x3E, 0xC3], .err .io) ∧
+    serializeXmlWriteB (.byteBudget 5) xmlEscapers env {} t [] = ([0x3C, 0x61, 0x3E, 0xC3, 0xA9], .err .io) ∧
+    serializeXmlWriteB (.byteBudget 7) xmlEscapers env {} t [] = ([0x3C, 0x61, 0x3E, 0xC3, 0xA9, 0xE2, 0x82], .err .io) ∧
+    (serializeXmlWriteW (BytePolicy.byteBudget 4).chars xmlEscapers env {} t []) = (['<', 'a', '>'], .err .io) ∧
+    (serializeXmlWriteW (BytePolicy.byteBudget 7).chars xmlEscapers env {} t []) = (['<', 'a', '>', 'é'], .err .io) ∧
+    serializeXmlWriteB (.byteBudget 11) xmlEscapers env {} t []
+      = ([0x3C, 0x61, 0x3E, 0xC3, 0xA9, 0xE2, 0x82, 0xAC, 0x3C, 0x2F, 0x61], .err .io) ∧
+    serializeXmlWriteB (.byteBudget 12) xmlEscapers env {} t []
+      = ([0x3C, 0x61, 0x3E, 0xC3, 0xA9, 0xE2, 0x82, 0xAC, 0x3C, 0x2F, 0x61, 0x3E], .ok ()) := by decide
+
+/-- Error priority at byte level: `<a><b:…/></a>`, `b`'s namespace undeclared, with a declaration: `MissingPrefix`
+    arises after 25 bytes (`<?xml version="1.0"?>\n<a>`).  Budget 24 gives `Io`, budget 25 `MissingPrefix`. -/
+example :
+    let env : Env := ⟨[[], xmlNs, ['u']], [[], ['x','m','l']], [(['s','p','a','c','e'], 1), (['i','d'], 1), (['a'], 0), (['b'], 2)]⟩
+    let t : Tree := .node .document [.node (.element 2) [.node (.element 3) []]]
+    let p : XmlParams := { declaration := some {} }
+    (utf8 (serializeXmlCalls xmlEscapers env p t []).1.flatten).length = 25 ∧
+    (serializeXmlWriteB (.byteBudget 24) xmlEscapers env p t []).2 = .err .io ∧
+    (serializeXmlWriteB (.byteBudget 24) xmlEscapers env p t []).1.length = 24 ∧
+    (serializeXmlWriteB (.byteBudget 25) xmlEscapers env p t []).2 = .err (.missingPrefix 2) := by decide
 
 end XotModel.Props
